@@ -62,7 +62,7 @@ inductive OpKind
   | setF (f : Name) -- e.f = v
   | invoke (m : Name) -- e.m(args)
   | exprS           -- expression statement
-  | ret             -- return e;
+  | ret             -- return e;   (`return;` without a value — `emit_return` — is outside the fragment)
   | raise           -- raise e;
   deriving DecidableEq, Repr, Inhabited
 
@@ -75,12 +75,16 @@ inductive Tm
   | seq (a b : Tm)
   | lit (n : Int)
   | str (s : String)
+  /-- the literal `nil` -/
+  | nilE
   | var (o : Nat) (x : Name)
   | assign (o : Nat) (x : Name) (e : Tm)
   | op (k : OpKind) (args : Tm)
   /-- lambda `|ps| { body }`; `d0` is the binder id of the hidden slot 0. -/
   | lam (tbl : Table) (d0 : Nat) (ps : List Param) (body : Tm)
   | letS (d : Nat) (x : Name) (e : Tm)
+  /-- `let x;` — a declaration without initialiser (`ast::Let { value: None }`): the variable is `nil` -/
+  | letN (d : Nat) (x : Name)
   | fnS (d : Nat) (f : Name) (tbl : Table) (d0 : Nat) (ps : List Param) (body : Tm)
   | ifS (c : Tm) (tblT : Table) (t : Tm) (tblE : Table) (e : Tm)
   | whileS (c : Tm) (tbl : Table) (b : Tm)
@@ -280,6 +284,7 @@ def res : Tm → RS → Tm × RS
     (.seq a' b', rs)
   | .lit n, rs => (.lit n, rs)
   | .str s, rs => (.str s, rs)
+  | .nilE, rs => (.nilE, rs)
   | .var o x, rs => (.var o x, rs.resolveVar o x)
   | .assign o x e, rs =>
     -- `assign`: `self.atom(lhs); self.expr(rhs)`
@@ -300,6 +305,9 @@ def res : Tm → RS → Tm × RS
     let rs := rs.declare d x
     let (e', rs) := res e rs
     (.letS d x e', rs.define x)
+  | .letN d x, rs =>
+    -- `let_`: `declare_variable; if let Some(v) = value { expr(v) }; define_variable` with `value = None`
+    (.letN d x, (rs.declare d x).define x)
   | .fnS d f _ d0 ps body, rs =>
     let rs := rs.declareDefine d f
     let rs := { rs with funDepth := rs.funDepth + 1 }.beginScope
@@ -357,6 +365,7 @@ def res : Tm → RS → Tm × RS
 /-- The module-level declarations of a program (the `seq` spine of the root): `decl_module`. -/
 def moduleDecls : Tm → List (Nat × Name)
   | .seq (.letS d x _) rest => (d, x) :: moduleDecls rest
+  | .seq (.letN d x) rest => (d, x) :: moduleDecls rest
   | .seq (.fnS d f _ _ _ _) rest => (d, f) :: moduleDecls rest
   | .seq (.classS d c _ _ _ _ _ _) rest => (d, c) :: moduleDecls rest
   | .seq _ rest => moduleDecls rest
@@ -406,6 +415,9 @@ inductive Path | local (s : Nat) | box (s : Nat) | capture (i : Nat) | modsym (s
 inductive Ev
   | get (p : Path) | set (p : Path)
   | emptyBox | fillBox | box (s : Nat)
+  /-- the `Nil` instruction: the value of a declaration without initialiser (`let_`), of the item of a `for`
+  before the first iteration, of the literal `nil`, and of the implicit `return` at the end of a function -/
+  | nil
   | closure (f : Name) (caps : List CapIdx)
   | funConst (f : Name)
   deriving DecidableEq, Repr, Inhabited
@@ -700,13 +712,13 @@ def CS.enterFunction (cs : CS) (kind : FunKind) (name : Name) (tbl : Table) (d0 
     | .fn | .static => (cs.declareLocal d0 UNINITIALIZED_VAR).1
   cs.params ps
 
-/-- Exit of `function`: `end_compiler` (an initialiser returns slot 0 with `GetLocal(0)` whatever the
-state of `self` is), then the parent emits the constant or the closure with its capture operands. -/
+/-- Exit of `function`: `end_compiler` (`emit_return`: an initialiser returns slot 0 with `GetLocal(0)`
+whatever the state of `self` is, every other function returns `Nil`), then the parent emits the constant or the closure with its capture operands. -/
 def CS.exitFunction (cs : CS) : CS :=
   match cs.chain with
   | [] => cs
   | c :: rest =>
-    let evs := if c.kind = some .init then c.evs ++ [.get (.local 0)] else c.evs
+    let evs := if c.kind = some .init then c.evs ++ [.get (.local 0)] else c.evs ++ [.nil]
     let fr : FunRec := { name := c.name, captures := c.captures, evs := evs, d0 := c.d0 }
     let cs : CS := { cs with chain := rest, funs := cs.funs ++ [fr] }
     if c.captureCount = 0 ∧ c.kind = some .fn then cs.emit (.funConst c.name)
@@ -718,7 +730,8 @@ def CS.forPrologue (cs : CS) (dIter d : Nat) (x : Name) : CS :=
   let cs := (cs.declareVariable dIter ITER_VAR).1
   let cs := cs.defineVariable ITER_VAR .localInit
   let r := cs.declareVariable d x
-  let cs := r.1.defineVariable x r.2
+  -- "initial fill iteration item with nil and define"
+  let cs := (r.1.emit .nil).defineVariable x r.2
   match cs.chain with
   | c :: _ =>
     match c.resolveLocal cs.modTable ITER_VAR, c.resolveLocal cs.modTable x with
@@ -753,6 +766,7 @@ def comp : Tm → CS → CS
   | .seq a b, cs => comp b (comp a cs)
   | .lit _, cs => cs
   | .str _, cs => cs
+  | .nilE, cs => cs.emit .nil
   | .var o x, cs => cs.variableGet o x
   | .assign o x e, cs => (comp e cs).variableSet o x
   | .op _ args, cs => comp args cs
@@ -760,6 +774,10 @@ def comp : Tm → CS → CS
     (comp body (cs.enterFunction .fn "lambda" tbl d0 ps)).exitFunction
   | .letS d x e, cs =>
     (comp e (cs.declareVariable d x).1).defineVariable x (cs.declareVariable d x).2
+  | .letN d x, cs =>
+    -- `let_` with `value = None`: the same three steps with `Nil` in the place of the initialiser — in every storage
+    -- class (module symbol: `Nil; SetModSym`, plain local: `Nil` stays in the new slot, boxed local: `EmptyBox; Nil; FillBox`)
+    ((cs.declareVariable d x).1.emit .nil).defineVariable x (cs.declareVariable d x).2
   | .fnS d f tbl d0 ps body, cs =>
     ((comp body ((cs.declareVariable d f).1.enterFunction .fn f tbl d0 ps)).exitFunction).defineVariable f (cs.declareVariable d f).2
   | .ifS c tblT t tblE e, cs =>
@@ -804,7 +822,7 @@ structure Compiled where
 def compile (r : Resolved) : Compiled :=
   let cs := comp r.tree (CS.start r)
   let script : List FunRec := match cs.chain with
-    | c :: _ => [{ name := c.name, captures := c.captures, evs := c.evs }]
+    | c :: _ => [{ name := c.name, captures := c.captures, evs := c.evs ++ [.nil] }]
     | [] => []
   { funs := cs.funs ++ script, errors := cs.errors, panics := cs.panics, occs := cs.occs, decls := cs.decls }
 
@@ -884,6 +902,7 @@ def occs (mod : Name → Option DeclRef) : Tm → Env → Env × List Occ
     (env, l1 ++ l2)
   | .lit _, env => (env, [])
   | .str _, env => (env, [])
+  | .nilE, env => (env, [])
   | .var o x, env => (env, [⟨o, lookup mod env x⟩])
   | .assign o x e, env =>
     let (env, l) := occs mod e env
@@ -895,6 +914,7 @@ def occs (mod : Name → Option DeclRef) : Tm → Env → Env × List Occ
   | .letS d x e, env =>
     let env := declareVar env d x
     occs mod e env
+  | .letN d x, env => (declareVar env d x, [])
   | .fnS d f _ d0 ps body, env =>
     let env := declareVar env d f
     let (_, l) := occs mod body (enterFun env .fn d0 ps)
